@@ -205,7 +205,7 @@ def _part(size, content, a, b):
 INM_KINDS = ["none", "match", "weak", "other", "star", "list-match", "list-nomatch",
              "garbage", "empty"]
 IMS_KINDS = ["none", "older", "equal", "newer", "garbage", "rfc850-equal", "asctime-equal",
-             "zone-newer", "older-1s"]
+             "zone-newer", "older-1s", "zone-instant-older"]
 
 
 def inm_value(kind, etag):
@@ -238,6 +238,10 @@ def ims_value(kind):
         # not an HTTP-date (numeric zone): RFC says ignore, Tornado's own test
         # suite honours it -> EITHER
         return email.utils.formatdate(MT + 7200, usegmt=False).replace("-0000", "+0100").encode()
+    if kind == "zone-instant-older":
+        # wall-clock fields half an hour after the mtime, zone +0100: the instant is half an hour BEFORE the mtime.
+        # Whether the numeric zone is ignored (not an HTTP-date) or honoured, the file counts as modified since.
+        return email.utils.formatdate(MT + 1800, usegmt=False).replace("-0000", "+0100").encode()
     raise AssertionError(kind)
 
 
@@ -251,7 +255,7 @@ def cond_expect(inm, ims):
         # invalid field: treating it as absent or as non-matching both fine
         a = cond_expect("none", ims)
         return a if a == "pass" else "either"
-    if ims in ("none", "older", "older-1s", "garbage"):
+    if ims in ("none", "older", "older-1s", "garbage", "zone-instant-older"):
         return "pass"
     if ims in ("equal", "newer", "rfc850-equal", "asctime-equal"):
         return "304"
